@@ -363,7 +363,7 @@ def _run_case(case):
                         return result(False, sig="func|steps", msg=f"step at {loc} sign {sgn}: {err} ({case})", outcome="viol")
                     rf, steps = out
                     total += steps
-                    if abs(rf.current_guess - loc) > case["tol"]:
+                    if not abs(rf.current_guess - loc) <= case["tol"]:  # NaN fails
                         return result(False, sig="func|steps|accuracy", msg=f"returned {rf.current_guess}, sign change at {loc}, tol {case['tol']} ({case})", outcome="viol")
             return result(True, outcome=["steps", total], transitions=total, states=14)
         f = lambda x: FUNCS[name](x, lo, hi)  # noqa: E731
